@@ -402,15 +402,16 @@ fn serve_early(log: Arc<Mutex<Vec<Seen>>>, reply: impl Fn(&str, u16) -> Vec<u8> 
 #[test]
 fn vp_native_redirect_hops_with_bodies() {
     let log = Arc::new(Mutex::new(Vec::new()));
-    // two servers: A/<status>/start -> B/<status>/next -> A/<status>/end -> 200
+    // two servers: A/<status>/start -> B/<status>/next -(relative)-> B/<status>/rel -> A/<status>/end -> 200
     let ports: Arc<Mutex<(u16, u16)>> = Arc::new(Mutex::new((0, 0)));
     let mk = |ports: Arc<Mutex<(u16, u16)>>| move |line: &str, _port: u16| -> Vec<u8> {
         let (a, b) = *ports.lock().unwrap();
-        let path = line.split(' ').nth(1).unwrap_or("");
+        let path = line.split(' ').nth(1).unwrap_or("").split('?').next().unwrap_or("");
         let seg: Vec<&str> = path.split('/').collect();
         if seg.len() < 3 { return resp(404, None, "nf"); }
         let status: u16 = seg[1].parse().unwrap_or(404);
-        match seg[2] { "start" => resp(status, Some(&format!("http://127.0.0.1:{}/{}/next", b, status)), "go"), "next" => resp(status, Some(&format!("http://127.0.0.1:{}/{}/end", a, status)), ""), _ => resp(200, None, "done") }
+        match seg[2] { "start" => resp(status, Some(&format!("http://127.0.0.1:{}/{}/next", b, status)), "go"), "next" => resp(status, Some("rel?via=next"), ""),   // a relative reference: belongs to this hop's origin (B), not to the first one
+            "rel" => resp(status, Some(&format!("http://127.0.0.1:{}/{}/end", a, status)), ""), _ => resp(200, None, "done") }
     };
     let a = serve_early(log.clone(), mk(ports.clone()));
     let b = serve_early(log.clone(), mk(ports.clone()));
@@ -441,9 +442,9 @@ fn vp_native_redirect_hops_with_bodies() {
         let ctx = format!("status {} body kind {}", status, kind);
         let r = res.unwrap_or_else(|e| panic!("{}: {}", ctx, e));
         assert_eq!((r.status().as_u16(), r.url().as_str()), (200, &format!("http://127.0.0.1:{}/{}/end", a, status)[..]), "{}", ctx);
-        assert_eq!(seen.len(), 3, "three hops: {} -> {:?}", ctx, seen.iter().map(|x| x.first_line.clone()).collect::<Vec<_>>());
+        assert_eq!(seen.len(), 4, "four hops: {} -> {:?}", ctx, seen.iter().map(|x| x.first_line.clone()).collect::<Vec<_>>());
         for (i, x) in seen.iter().enumerate() {
-            let hop_port = if i == 1 { b } else { a };
+            let hop_port = if i == 1 || i == 2 { b } else { a };
             assert_eq!(x.port, hop_port, "hop {} went to the wrong server ({})", i, ctx);
             assert_eq!(x.host.as_deref(), Some(&format!("127.0.0.1:{}", hop_port)[..]), "Host of hop {} ({})", i, ctx);
             assert!(x.head.to_ascii_lowercase().contains("x-caller: keep-me"), "the caller's header is missing on hop {} ({})", i, ctx);
